@@ -10,5 +10,5 @@ git -C /repo worktree add --detach $w HEAD >/dev/null 2>&1 || exit 2
 git -C $w apply "$patch" || { echo "patch does not apply"; git -C /repo worktree remove --force $w; exit 2; }
 mkdir -p $v && rsync -a --exclude /build --exclude /out --exclude /.git $here/ $v/
 (cd $v && VERIF_REPO=$w ./check.py $pid --tier $tier 2>&1 | grep -E "^(VIOLATION|OK|KNOWN)" | cut -c1-300 | tail -3)
-rm -rf $v
+[ -n "${KEEP:-}" ] || rm -rf $v
 git -C /repo worktree remove --force $w
